@@ -30,7 +30,7 @@ func layoutRuns(mask, n int) []memBlock {
 func init() {
 	checks["C15"] = eng.Check{
 		Hist: true,
-		Rule: "Bytes memory. (a) creation: every ordered list of <=3 non-empty blocks (begin 0..7, length 1..3, distinct bytes) incl. overlapping, adjacent and unsorted ones: NewBytes fails iff two blocks share an address, otherwise the full read surface (every Load/Missing for a in 0..11, w in 1..3, Blocks) equals the byte map and the given slices are not aliased. (b) histories: for each of the 64 layouts over addresses 0..5 (one block per run) and a layout split into adjacent blocks, every history of <=2 (quick) / <=3 (thorough) constant stores (addr 0..7, width 1..3, constant exactly/narrower/wider than the write) on a fresh real Bytes; full surface after each history; digests of constants handed in and expressions returned re-checked. Non-trivial = history with >=2 stores or creation from >=2 blocks.",
+		Rule: "Bytes memory. (a) creation: every ordered list of <=3 non-empty blocks (begin 0..7, length 1..3, distinct bytes) incl. overlapping, adjacent and unsorted ones: NewBytes fails iff two blocks share an address, otherwise the full read surface (every Load/Missing for a in 0..11, w in 1..3, Blocks) equals the byte map and the given slices are not aliased. (b) histories: for each of the 64 layouts over addresses 0..5 (one block per run) and a layout split into adjacent blocks, every history of <=2 (quick) / <=3 (thorough) constant stores (addr 0..7, width 1..3, constant exactly/narrower/wider than the write, or equal to the bytes already present) on a fresh real Bytes; full surface after each history; digests of constants handed in and expressions returned re-checked. Non-trivial = history with >=2 stores or creation from >=2 blocks.",
 		Assumptions: []string{"initial blocks are non-empty", "only constants are stored (documented precondition of Bytes.Store)", "no address wrap"},
 		Run: func(r *eng.Run) {
 			// (a) creation
@@ -77,7 +77,7 @@ func init() {
 			})
 			memDo(r, memCase{Mem: "bytes", MaxA: 4, MaxW: 3})
 			// (b) histories
-			alpha := memAlpha(seq(0, 7), seq(1, 3), []string{"const", "narrow", "wide"})
+			alpha := memAlpha(seq(0, 7), seq(1, 3), []string{"const", "narrow", "wide", "samecopy"})
 			depth := 2
 			if !r.Quick() {
 				depth = 3
@@ -91,6 +91,14 @@ func init() {
 			for _, top := range []bool{false, true} {
 				for li, lay := range layouts {
 					if top && li%9 != 0 {
+						continue
+					}
+					if r.Quick() && li%3 != 1 && li != 64 {
+						// quick: depth-1 histories on every layout, deeper ones on every third
+						lay := lay
+						histories(r, alpha, 1, func(ops []memOp) {
+							memDo(r, memCase{Mem: "bytes", Blocks: lay, Ops: append([]memOp{}, ops...), Top: top, MaxA: 11, MaxW: 3})
+						})
 						continue
 					}
 					lay, top := lay, top
@@ -114,7 +122,7 @@ func init() {
 		Assumptions: []string{"no address wrap", "values judged under 3 valuations"},
 		Run: func(r *eng.Run) {
 			alpha := memAlpha(seq(0, 5), seq(1, 3), []string{"const", "sym", "basecopy"})
-			alpha2 := memAlpha(seq(0, 5), seq(1, 4), []string{"const", "sym", "narrow", "basecopy"})
+			alpha2 := memAlpha(seq(0, 5), seq(1, 4), []string{"const", "sym", "narrow", "basecopy", "samecopy"})
 			depth := 2
 			if !r.Quick() {
 				depth = 3
